@@ -6,6 +6,12 @@ from harness.props import alloc_common as ac
 from harness.props.alloc_common import HEADER, HEADER_H, run_impl, to_coq, shrink
 
 ASSUMPTIONS = [
+    "'all thresholds' is read as every float the caller can compare a ratio with: finite values of any sign and magnitude, +inf and "
+    "-inf (model: Alloc/Thr.v thr); a NaN is not a threshold and is not generated - the code answers must_be_refined(nan) = False and "
+    "refine(nan) = identity, as the model's TNan does (recorded under nan_probe_not_judged, not judged)",
+    "level counts: 1-4 everywhere, 8 and 16 where the harness' own reading of the property predicts at most 300 cells after the call "
+    "(the constructor's overlap check is quadratic); a refine call that is predicted to be small and does not return within 120 s is "
+    "reported as failed",
     "tolerances set explicitly (Rectangle.set_epsilon) and passed to the model as parameters; the sliver ratio is the exact value of the float 0.01",
     "grid alignment is read 'at the time the cut was tried' (DESIGN.md C12): a boundary may remain inside a final cell only if cutting the cell "
     "as it was when that boundary was tried would have left a piece thinner than 1% of its other side",
@@ -105,7 +111,7 @@ def oracle_hist(case, obs):
             epoch += 1
             continue
         if h[0] == "mbr":
-            key, what, ans = (st["k"], core.frac(h[2]), epoch), "mbr", st["val"]
+            key, what, ans = (st["k"], ac.thr_key(h[2]), epoch), "mbr", st["val"]
         elif h[0] == "apply":
             o = h[2]
             if st["new"] is None:
@@ -117,16 +123,16 @@ def oracle_hist(case, obs):
                 return f"{why} (step {n} of a history on shared objects)"
             if o[0] != "refine":
                 continue
-            key, what, ans = (st["k"], core.frac(o[1]), epoch), "refine", not ac.same_cells(st["new"], st["src"])
+            key, what, ans = (st["k"], ac.thr_key(o[1]), epoch), "refine", not ac.same_cells(st["new"], st["src"])
         else:
             continue
         for w0, a0, n0 in said.get(key, []):
             if a0 != ans and (w0, what) != ("refine", "refine"):
                 m, r = (a0, ans) if w0 == "mbr" else (ans, a0)
                 if w0 == what == "mbr":
-                    return (f"must_be_refined({key[1]}) = {a0} at step {n0} and {ans} at step {n} on the same allocation "
+                    return (f"must_be_refined({ac.thr_show(key[1])}) = {a0} at step {n0} and {ans} at step {n} on the same allocation "
                             f"with no change in between")
-                return (f"must_be_refined({key[1]}) = {m} but refining at that threshold "
+                return (f"must_be_refined({ac.thr_show(key[1])}) = {m} but refining at that threshold "
                         f"{'changes' if r else 'does not change'} the allocation (steps {n0} and {n} of a history)")
         said.setdefault(key, []).append((what, ans, n))
     return None
@@ -140,6 +146,7 @@ def oracle(case, obs):
     if case.get("stream") == "decimal":
         # decimal coordinates: decisions are discrete, so consistency must hold exactly; shapes are not judged
         for t, m, ch in zip(case["ths"], obs["mbr"], obs["refine_changes"]):
+            t = ac.thr_show(t)
             if isinstance(ch, str):
                 return f"refine({t}) failed ({ch}) on a valid allocation with decimal coordinates"
             if m != ch:
@@ -150,11 +157,24 @@ def oracle(case, obs):
                 return f"{o[0]} failed ({st.get('err')}) on a valid allocation with decimal coordinates"
         return None
     for t, m, ch in zip(case["ths"], obs["mbr"], obs["refine_changes"]):
+        t = ac.thr_show(t)
         if isinstance(ch, str):
             return f"refine({t}) failed ({ch}) on a valid allocation"
         if m != ch:
             return (f"must_be_refined({t}) = {m} but refining at that threshold "
                     f"{'changes' if ch else 'does not change'} the allocation")
+    for t, lo in zip(case["ths"], obs.get("loop", [])):
+        # the refine-while-needed loop: a round is only made when must_be_refined(t) said True, so it must change the
+        # allocation (otherwise the loop never ends), and it is a threshold refinement like any other
+        for n, (before, after) in enumerate(lo["rounds"]):
+            if isinstance(after, str):
+                return f"refine({ac.thr_show(t)}) failed ({after}) on a valid allocation (round {n + 1} of the refine-while-needed loop)"
+            if ac.same_cells(before, after):
+                return (f"must_be_refined({ac.thr_show(t)}) = True but refining at that threshold does not change the allocation: "
+                        f"the refine-while-needed loop is stuck in round {n + 1}")
+            why = step_exact(["refine", t, case["loop"][0]], before, after, case["eps"])
+            if why:
+                return f"{why} (round {n + 1} of the refine-while-needed loop at {ac.thr_show(t)})"
     for o, st in zip(case["ops"], obs["steps"]):
         before, after = st["before"]["cells"], st["after"]
         if after is None:
@@ -165,6 +185,26 @@ def oracle(case, obs):
         if why:
             return why
     return None
+
+
+def nan_probe():
+    """NOT judged (a NaN is no threshold: 'no module exceeds nan' has no agreed reading, so nan is outside 'all
+    thresholds'): what the code does with it, next to what the model says (Alloc/Thr.v TNan: x <= nan is False, hence
+    must_be_refined False and refine the identity, theorem C12_mbr_bottom)."""
+    import random
+    out = []
+    try:
+        for layout in ("mixed", "all-empty", "zero-ratio"):
+            cells = ac.ext_cells(random.Random(layout), layout)
+            a = ac.build_alloc(cells)
+            m = bool(a.must_be_refined(float("nan")))
+            ch = not ac.same_cells(ac.cells_obs(a.refine(float("nan"), 2)), ac.cells_obs(a))
+            out.append({"layout": layout, "must_be_refined(nan)": m, "refine(nan) changes": ch,
+                        "model": {"must_be_refined": False, "changes": False}, "agree": (m, ch) == (False, False),
+                        "consistent": m == ch})
+    except Exception as e:
+        out.append({"error": f"{type(e).__name__}: {e}"})
+    return out
 
 
 def failure_key(case, why):
@@ -179,7 +219,13 @@ def failure_key(case, why):
 
 def run(ctx, out, replay=None):
     n = 520 if ctx.quick() else 5000
-    out.rule = ("same generators as C02: (a) chains on fresh objects (guillotine / sparse / grid / sliver layouts; empty, "
+    out.rule = ("EXTREME ARGUMENTS: a systematic block of thresholds +inf, -inf, +-1e308, -1, 0, 1, 2, 1+2^-52, 1-2^-53, +-5e-324, -2^-60 "
+                "x level counts 1, 2, 8, 16 x degenerate layouts (all cells empty, occupied cells fixed + empty rest, mixed, one "
+                "empty cell, one full cell, zero ratios, all occupied), on fresh objects - must_be_refined and refine probed at "
+                "all of these thresholds, the callers' loop 'while must_be_refined(t): refine(t, l)' followed for two rounds at "
+                "each - and on shared objects whose occupied cells are flagged fixed in place; 30% of the other cases get some "
+                "thresholds / level counts replaced by such values; whole-number thresholds passed as ints in 30-40% of these. "
+                "Otherwise the same generators as C02: (a) chains on fresh objects (guillotine / sparse / grid / sliver layouts; empty, "
                 "single, multi, full, fixed maps; depths 0-3; layouts with different numbers of x- and y-boundaries), "
                 "must_be_refined probed at 5 thresholds before and after every operation; (b) histories on shared objects: "
                 "must_be_refined / refine / uniform / griddify / queries called repeatedly on any allocation built so far, with "
@@ -192,9 +238,12 @@ def run(ctx, out, replay=None):
     import random
     from harness.props import c02
     rng = random.Random(f"C12x-{ctx.seed}")
-    cases += c02.gen_cases(rng, max(n - len(cases), 0), ctx.quick())
+    cases += c02.gen_cases(rng, max(n - len(cases), 0), ctx.quick(), extreme=True)
     fr.run_cases(ctx, out, cases, ac.run_any, ac.any_to_coq, oracle, failure_key, HEADER_H,
                  dist_key=ac.any_dist_key, nontrivial=ac.nontrivial, shard=75, shrink=ac.any_shrink)
     out.extra["history_cases"] = sum(1 for c in cases if ac.is_hist(c))
     out.extra["variants"] = ac.variant_counts(cases)
     out.extra["note"] = "distribution keys are layout-kind/operation-sequence"
+    out.extra["nan_probe_not_judged"] = nan_probe()
+    ext = [c for c in cases if c["kind"].startswith("ext-") or c["kind"] == "hist-ext" or "extreme" in c["kind"] or c.get("tint")]
+    out.extra["extreme_argument_cases"] = len(ext)
